@@ -15,6 +15,7 @@
     X(int, vf, ) X(int, vt, ) X(double, df, ) X(double, dt, ) X(unsigned char, sf, ) X(unsigned char, st, ) X(unsigned char, path, [3]) \
     X(unsigned char, g_text, [2][26]) X(double, g_val, ) X(double, strtod_val, ) X(unsigned char, dp, )
 #include "vf.h"
+#include "vf_str.h"
 #define VF_MODEL_PRINTF
 #include "vf_libc.h"
 #include "vf_mem.h"
